@@ -164,13 +164,16 @@ def _encode_case(job):
             teal = pt.compileTeal(wrap(pt, body, in_sub), pt.Mode.Application, version=version)
             res = run_teal(teal)
             out["ran"] += 1
+            if resource_limited(res):
+                out["skipped"] = f"value outside the AVM's resource limits: {res.detail}"
+                continue
             if res.verdict != "approve" or res.logs != [want]:
                 out["problems"].append(f"value {v!r:.120}: expected {want.hex()[:80]} got {res.verdict} {[l.hex()[:80] for l in res.logs]} {res.detail}")
                 out["teal"] = teal
                 break
     except Exception as e:
         from spec import avm
-        if isinstance(e, avm.Unsupported):
+        if isinstance(e, avm.Unsupported) or too_many_slots(e):
             out["skipped"] = str(e)
         else:
             out["problems"].append(f"exception {type(e).__name__}: {str(e)[:200]}")
@@ -302,15 +305,27 @@ def _decode_case(job):
             if want == "fail":
                 if res.verdict != "fail":
                     out["problems"].append({"check": label, "kind": "oob", "what": f"out-of-range access did not fail: {res.verdict} {[l.hex() for l in res.logs]}"})
+            elif resource_limited(res):
+                out["skipped"] = f"outside the AVM's resource limits: {res.detail}"
             elif res.verdict != "approve" or res.logs != want:
                 out["problems"].append({"check": label, "what": f"value {v!r:.100}: expected {[w.hex()[:60] for w in want]} got {res.verdict} {[l.hex()[:60] for l in res.logs]} {res.detail}"})
     except Exception as e:
         from spec import avm
-        if isinstance(e, avm.Unsupported):
+        if isinstance(e, avm.Unsupported) or too_many_slots(e):
             out["skipped"] = str(e)
         else:
             out["problems"].append({"check": "exception", "what": f"{type(e).__name__}: {str(e)[:200]}", "trace": traceback.format_exc()[-600:]})
     return out
+
+
+def resource_limited(res):
+    """the run hit a size limit of the machine (4096-byte values, log sizes, opcode budget), not a codec error"""
+    return res.verdict == "fail" and any(k in (res.detail or "") for k in ("bytes too long", "budget", "too many logs", "log too", "stack overflow"))
+
+
+def too_many_slots(e):
+    """a type needing more than 256 scratch slots is rejected at compile time (the rule of property C10), not mis-encoded"""
+    return type(e).__name__ == "TealInternalError" and "Too many slots in use" in str(e)
 
 
 def pool_map(fn, jobs, workers=16):
